@@ -118,11 +118,11 @@ class Rule:
                         if isinstance(datum, k):
                             try:
                                 datum = v(datum)
-                                break
-                            except TypeError:
-                                pass
-                    datum_path = DataPath(*datum_path)
-                    set_datum(data_copy, datum_path, datum)
+                            except (TypeError, ValueError):
+                                continue
+                            if datum_path:
+                                set_datum(data_copy, datum_path, datum)
+                            break
 
         return RuleTest(self, data_copy)
 
